@@ -31,6 +31,7 @@ type frame struct {
 	caller    *frame
 	backedges map[*ssa.BasicBlock]int
 	locals    []*Cell
+	skipPhis  bool
 }
 
 func (x *Exec) get(fr *frame, v ssa.Value) Value {
@@ -253,6 +254,11 @@ func (x *Exec) runFrame(fr *frame) {
 	}()
 	for {
 		for _, instr := range fr.block.Instrs {
+			if fr.skipPhis {
+				if _, isPhi := instr.(*ssa.Phi); !isPhi {
+					fr.skipPhis = false
+				}
+			}
 			x.steps++
 			if x.Opt.MaxSteps > 0 && x.steps > x.Opt.MaxSteps {
 				x.unwindFailure(fmt.Sprintf("step budget %d exhausted in %s", x.Opt.MaxSteps, fr.fn))
@@ -384,11 +390,16 @@ func (x *Exec) visit(fr *frame, instr ssa.Instruction) cont {
 			if fr.backedges == nil {
 				fr.backedges = map[*ssa.BasicBlock]int{}
 			}
+			if x.Opt.IfConv && x.tryIfConv(fr, in, cond) {
+				return kJump
+			}
 			fr.backedges[fr.block]++
 			if x.Opt.MaxUnwind > 0 && fr.backedges[fr.block] > x.Opt.MaxUnwind {
 				x.unwindFailure(fmt.Sprintf("symbolic branch in %s block %d taken more than %d times", fr.fn, fr.block.Index, x.Opt.MaxUnwind))
 			}
+			x.branchRepeat = fr.backedges[fr.block]
 			taken = x.Branch(cond)
+			x.branchRepeat = 0
 		}
 		fr.prev = fr.block
 		if taken {
@@ -467,6 +478,9 @@ func (x *Exec) visit(fr *frame, instr ssa.Instruction) cont {
 		}
 		fr.env[in] = &Closure{Fn: in.Fn.(*ssa.Function), Env: env}
 	case *ssa.Phi:
+		if fr.skipPhis {
+			break
+		}
 		for i, pred := range in.Block().Preds {
 			if fr.prev == pred {
 				fr.env[in] = x.get(fr, in.Edges[i])
